@@ -97,6 +97,8 @@ type gen struct {
 	inlineDepth int
 	isInline bool
 	ghostSetsApplied int
+	callOrd          map[*ssa.Call]int // source-order ordinal of each call among the calls of the same callee
+	callOrdFn        *ssa.Function
 	pointAssertsApplied int
 	// freshRefs: reference terms known (syntactically) to denote objects allocated during this execution;
 	// writtenOld: components with a write that is not known to hit such an object only
